@@ -113,6 +113,9 @@ const RESERVED: [&[u8]; 10] = [
 ];
 
 fn rand_key(rng: &mut Rng) -> Vec<u8> {
+    if !mined_keys().is_empty() && rng.chance(1, 6) {
+        return rng.pick(mined_keys()).clone();
+    }
     match rng.below(10) {
         0..=3 => rng.pick(&RESERVED).to_vec(),
         4 => vec![],
@@ -361,6 +364,19 @@ pub fn rep_steps(valid_pub: &[Vec<u8>], small: bool) -> Vec<String> {
     v
 }
 
+/// single steps for every key the source mentions by name, with values of several shapes
+pub fn mined_steps() -> Vec<String> {
+    let mut v = Vec::new();
+    for k in mined_keys() {
+        let hk = hx(k);
+        v.push(format!("step op=insert key={hk} vt=uint val=100000"));
+        v.push(format!("step op=insert_raw key={hk} raw=c0"));
+        v.push(format!("step op=insert key={hk} vt=bytes val=01020304"));
+        v.push(format!("step op=remove_insert rm=- ins={hk}:0050"));
+    }
+    v
+}
+
 /// `init` lines for initial records at sequence-number and size boundaries
 pub fn inits(rng: &mut Rng, sig_len: usize) -> Vec<String> {
     let mut v = Vec::new();
@@ -381,6 +397,25 @@ pub fn inits(rng: &mut Rng, sig_len: usize) -> Vec<String> {
         ));
     }
     v.push("init kind=build calls=- signer=0".into());
+    // the builder is reused: earlier builds (with another key, failing, succeeding) leave state behind
+    v.push(format!(
+        "init kind=build calls=tcp4:{};build:1:0;udp4:{} signer=0",
+        rand_port(rng),
+        rand_port(rng)
+    ));
+    v.push(format!(
+        "init kind=build calls=ip4:{};build:0:1;build:2:0;seq:{} signer=0",
+        hx(&rand_ip4(rng)),
+        rng.range(1, 1000)
+    ));
+    v.push(format!(
+        "init kind=build calls=raw:6970:8501020304ff;build:0:0;ip4:{} signer=0",
+        hx(&rand_ip4(rng))
+    ));
+    // a build that fails validation, then the same builder again with nothing (or only seq) in between
+    v.push("init kind=build calls=raw:746370:83010000;build:0:0 signer=0".into());
+    v.push("init kind=build calls=raw:7a:0102;build:0:0;seq:9 signer=1".into());
+    v.push("init kind=build calls=raw:697036:8401020304;build:1:0;build:0:1 signer=0".into());
     v
 }
 
@@ -437,6 +472,66 @@ pub fn gen_hist(schemes: &[&str], rng: &mut Rng, thorough: bool, cases: &mut Vec
                 c.lines.push(with_signer(a, s1, f1));
                 c.lines.push(with_signer(b, s2, f2));
                 cases.push(c);
+            }
+        }
+        // keys mined from the source: one step each, then a second harmless step and a re-decode
+        for (i, a) in mined_steps().iter().enumerate() {
+            let mut c = Case::new("hist", scheme, id, "mined-key");
+            id += 1;
+            c.keys = keys.clone();
+            c.lines.push(init_list[i % init_list.len()].clone());
+            c.lines.push(with_signer(a, 0, false));
+            c.lines.push("step op=redecode".into());
+            cases.push(c);
+            // and through the builder
+            let f: Vec<&str> = a.split(' ').collect();
+            if a.contains("op=insert_raw") {
+                let key = f.iter().find(|t| t.starts_with("key=")).map(|t| &t[4..]).unwrap_or("-");
+                let mut c = Case::new("hist", scheme, id, "mined-key-builder");
+                id += 1;
+                c.keys = keys.clone();
+                c.lines.push(format!("init kind=build calls=raw:{key}:c0;uint:{key}:100000 signer=0"));
+                c.lines.push("step op=redecode".into());
+                cases.push(c);
+                let mut c = Case::new("hist", scheme, id, "mined-key-builder");
+                id += 1;
+                c.keys = keys.clone();
+                c.lines.push(format!("init kind=build calls=raw:{key}:c0 signer=0"));
+                c.lines.push("step op=redecode".into());
+                cases.push(c);
+            }
+        }
+        // decoded records whose secp256k1 entry is in the 65-byte uncompressed form: every update
+        // (successful or failing, own key, faulty signer) from that state
+        let k0 = ind_of(scheme, &keys[0]);
+        if k0.kind == Kind::Secp {
+            let un = {
+                let k = enr::k256::ecdsa::SigningKey::from_slice(&k0.sk).unwrap();
+                k.verifying_key().to_encoded_point(false).as_bytes().to_vec()
+            };
+            let mut spec = crate::gen_dec::Spec::new(
+                *rng.pick(&[1u64, 255, u64::MAX]),
+                vec![(b"ip".to_vec(), rlp_bytes(&rand_ip4(rng))), (b"udp".to_vec(), rlp_uint(rand_port(rng)))],
+                k0.clone(),
+            );
+            for it in spec.items.iter_mut() {
+                if it.0 == rlp_bytes(b"secp256k1") {
+                    it.1 = rlp_bytes(&un);
+                }
+            }
+            let buf = spec.encode(false);
+            for (i, a) in reps.iter().enumerate() {
+                for (s1, f1) in [(0usize, false), (0, true), (1, false)] {
+                    if !thorough && s1 == 1 && i % 3 != 0 {
+                        continue;
+                    }
+                    let mut c = Case::new("hist", scheme, id, "uncompressed-key");
+                    id += 1;
+                    c.keys = keys.clone();
+                    c.lines.push(format!("init kind=decode buf={}", hx(&buf)));
+                    c.lines.push(with_signer(a, s1, f1));
+                    cases.push(c);
+                }
             }
         }
         // random histories
@@ -582,6 +677,28 @@ pub fn gen_size(schemes: &[&str], rng: &mut Rng, thorough: bool, cases: &mut Vec
                         c.lines.push(with_signer(st, 0, false));
                         cases.push(c);
                     }
+                }
+            }
+        }
+        // builder with a custom scheme: signature lengths that put header-length boundaries (55/56,
+        // 255/256 bytes of content or of content + signature) right at the size limit
+        if *scheme == "toy" {
+            for base in [8u8, 9, 40, 41, 42, 43, 44, 45, 53, 54, 55, 56, 57, 64, 100, 150, 200, 236, 240, 241, 242, 250] {
+                let tk = vec![base, 0, rng.next() as u8, rng.next() as u8];
+                for pad in 0..=290usize {
+                    let est = base as usize + pad + 30;
+                    if !(284..=316).contains(&est) {
+                        continue;
+                    }
+                    let mut c = Case::new("size", scheme, id, "builder-toy");
+                    id += 1;
+                    c.keys = vec![tk.clone(), keys[1].clone(), keys[2].clone()];
+                    c.lines.push(format!(
+                        "init kind=build calls=seq:{};raw:70:{} signer=0",
+                        rng.pick(&[1u64, 200, 70000]),
+                        hx(&rlp_bytes(&vec![0x61; pad]))
+                    ));
+                    cases.push(c);
                 }
             }
         }
